@@ -673,14 +673,17 @@ CHECKS["C02"].update({
              "THROUGH THE parse ENTRY POINT for the node kinds without one of their own, the spanned text wrapped in the minimal context (LF = line feed): "
              "span_reparse_selection_set (the text itself is the query shorthand), span_reparse_selection (`{ <text>LF}`: fields, fragment spreads, "
              "inline fragments), span_reparse_directive (`{ a <text>LF}`), span_reparse_argument (`{ a(<text>LF)}`), span_reparse_object_field (`{ <text>LF}` through parse_value), span_reparse_variable_definition (`query(<text>LF){a}`), "
-             "span_reparse_description "
+             "span_reparse_field_definition (`type A {<text>LF}`), span_reparse_input_value_definition (`input A {<text>LF}`), "
+             "span_reparse_enum_value_definition (`enum A {<text>LF}`), span_reparse_description "
              "(`<text>LF scalar A`, flags with allow_type_system): parse accepts the wrapped text under the same flags and returns the document that "
              "contains exactly the node, moved by the offset of the context; closed forms without side hypothesis for executable documents: "
              "span_reparse_selection_all / _selection_set_all / _directive_all / _argument_all / _variable_definition_all over Definition.sels / ssets / "
              "dirs / args / vdefs (every such "
              "node at any depth), and for type-system definitions and extensions span_reparse_directive_ts / span_reparse_argument_ts / "
              "span_reparse_description_all over Definition.tdirs / descs (directives and descriptions of the definition and of its field definitions, "
-             "argument definitions, enum values, input fields). CORRESPONDENCE: decoded values and every node's loc (through the C01 driver), parse_block_string directly; DIRECT "
+             "argument definitions, enum values, input fields) and span_reparse_field_definition_all / _input_value_definition_all / "
+             "_enum_value_definition_all over Definition.fdefs / ivdefs / evdefs. Of the node kinds of the AST only OperationTypeDefinition "
+             "(`schema { query: Q }`) and bare Name nodes have no theorem through an entry point (span_reparse_node covers them at grammar level). CORRESPONDENCE: decoded values and every node's loc (through the C01 driver), parse_block_string directly; DIRECT "
              "ORACLES: source[loc] re-parses to an equal node with the Parser method that produced it (incl. trailing children) AND, for these node "
              "kinds, through the public parse() inside the same minimal context; block / quoted lexemes decode to the spec value, numbers and names "
              "verbatim, node.source slices."),
